@@ -468,10 +468,11 @@ def check(model, rep):
     rep.ob('R13.3', load, 'walk advances to the next element exactly once per iteration', {e[0] for e in ends2} == {1},
            'advance counts per iteration: %s' % sorted({e[0] for e in ends2}), line=walk.lineno)
     cnt_ifs = [n for n in count_loop.body if isinstance(n, ast.If)]
+    cnt_aug = [x for x in (cnt_ifs[0].body if cnt_ifs else []) if isinstance(x, ast.AugAssign)]
     ok = len(cnt_ifs) == 1 and src(cnt_ifs[0].test).replace(' ', '') == "temp_element.type=='joint'andtemp_element.sub_type!='fixed'" and \
-        len(cnt_ifs[0].body) == 1 and isinstance(cnt_ifs[0].body[0], ast.AugAssign) and isinstance(cnt_ifs[0].body[0].op, ast.Add) \
-        and isinstance(cnt_ifs[0].body[0].target, ast.Name) and src(cnt_ifs[0].body[0].value) == '1' \
-        and all(norm_text(d) == 'np.zeros((3,%s))' % cnt_ifs[0].body[0].target.id for t_ in ('joint_axes', 'joint_homes') for d in il_load.defs(t_))
+        len(cnt_aug) == 1 and isinstance(cnt_aug[0].op, ast.Add) \
+        and isinstance(cnt_aug[0].target, ast.Name) and src(cnt_aug[0].value) == '1' \
+        and all(norm_text(d) == 'np.zeros((3,%s))' % cnt_aug[0].target.id for t_ in ('joint_axes', 'joint_homes') for d in il_load.defs(t_))
     first_if = [n for n in walk.body if isinstance(n, ast.If)]
     ok2 = bool(first_if) and src(first_if[0].test).replace(' ', '') == "temp_element.type=='link'ortemp_element.sub_type=='fixed'" and \
         isinstance(first_if[0].body[-1], ast.Continue)
